@@ -145,6 +145,49 @@ def gen_cases(ctx, types, quick):
             variants = ALL_VARIANTS if k == 0 else [V_G, V_A, V_AU]
             add("vb", ty, name, w, h, (dense(lf), cs), "random-" + style, variants,
                 max(m, maxabs(lf)))
+        # --- cancelling coefficients: equal magnitudes with opposite signs (sum exactly zero over the
+        # block / a row / a column group / one interleaved sub-block). A shortcut that tests a SUM or
+        # an OR-reduction of lanes for "nothing here" passes impulses and dense random blocks and
+        # fails exactly on these (seeded: c16-hornuss-flat-fast-path-zero-sum,
+        # c16-column-lane-skip-zero-sum).
+        ncancel = 14 if quick else 120
+        for k in range(ncancel):
+            v = rng.choice([0.5, 1.0, 2.0, rnd_f32(rng, "int") or 3.0, rnd_f32(rng, "unit") or 0.25])
+            x0, y0 = rng.randrange(w), rng.randrange(h)
+            shape = k % 7
+            if shape == 0:      # anywhere
+                x1, y1 = rng.randrange(w), rng.randrange(h)
+            elif shape == 1:    # same row
+                x1, y1 = rng.randrange(w), y0
+            elif shape == 2:    # same column
+                x1, y1 = x0, rng.randrange(h)
+            elif shape == 3:    # same group of four columns, different columns and rows
+                x1, y1 = (x0 // 4) * 4 + rng.randrange(min(4, w)), rng.randrange(h)
+            elif shape == 4:    # same group of four rows
+                x1, y1 = rng.randrange(w), (y0 // 4) * 4 + rng.randrange(min(4, h))
+            elif shape == 5:    # same parity class (the interleaved 4x4 sub-blocks of Hornuss / DCT4x4)
+                x1, y1 = (x0 % 2) + 2 * rng.randrange(w // 2), (y0 % 2) + 2 * rng.randrange(h // 2)
+            else:               # first row / first column of the first 8x8 (low frequencies)
+                x0, y0 = rng.randrange(min(8, w)), 0
+                x1, y1 = (x0 % 2) + 2 * rng.randrange(min(8, w) // 2), 0
+            if (x1, y1) == (x0, y0):
+                x1 = (x0 + 2) % w
+            pairs = [(y0 * w + x0, v), (y1 * w + x1, -v)]
+            if rng.random() < 0.4:   # two cancelling pairs
+                x2, y2 = rng.randrange(w), rng.randrange(h)
+                x3, y3 = (x2 + 2 * rng.randrange(1, max(2, w // 2))) % w, y2
+                u = rng.choice([0.25, 1.5, 4.0])
+                if len({(x0, y0), (x1, y1), (x2, y2), (x3, y3)}) == 4:
+                    pairs += [(y2 * w + x2, u), (y3 * w + x3, -u)]
+            pairs.sort()
+            m = max(abs(p[1]) for p in pairs)
+            if rng.random() < 0.5:
+                add("tr", ty, name, w, h, (sparse(pairs),), "cancel", [V_G, V_A, V_AU], m)
+            else:
+                dc = rnd_f32(rng, "unit")
+                lf = [dc] + [0.0] * (nl - 1) if rng.random() < 0.5 else [rnd_f32(rng, "unit") for _ in range(nl)]
+                add("vb", ty, name, w, h, (dense(lf), sparse(pairs)), "cancel-vb", [V_G, V_A, V_AU],
+                    max(m, maxabs(lf)))
     # --- the 2-D driver alone on every power-of-two shape, both directions
     shapes = [(1 << a, 1 << b) for a in range(9) for b in range(9)]
     for (w, h) in shapes:
